@@ -13,12 +13,16 @@ Templates == {[date |-> ds, nt |-> n, ek |-> en, ep |-> {}] :
              \cup UNION {{[date |-> ds, nt |-> n, ek |-> "partial", ep |-> P] : P \in PartialEnds(n)} :
                             ds \in {"ymd", "y2doy"}, n \in 1..4}
 
+             \* start and end date spelled differently
+             \cup {r \in {[date |-> ds, edate |-> es, nt |-> n, ek |-> "full", ep |-> {}] :
+                              ds \in DateStyles, es \in DateStyles, n \in {0, 2}} : r.date # r.edate}
+
 Dates == {<<2000, 2, 28>>, <<2000, 2, 29>>, <<2000, 3, 1>>, <<2100, 2, 28>>, <<2100, 3, 1>>, <<2020, 2, 29>>,
           <<2021, 2, 28>>, <<2019, 12, 31>>, <<2020, 12, 31>>, <<2021, 1, 1>>, <<1965, 1, 1>>, <<2064, 12, 31>>,
           <<1999, 12, 31>>, <<1000, 1, 1>>, <<9999, 12, 30>>, <<2024, 7, 4>>}
 Clock == {<<0, 0, 0, 0>>, <<23, 59, 59, 999>>, <<12, 34, 56, 789>>, <<23, 50, 0, 0>>, <<9, 5, 7, 10>>}
 Starts == {d \o c : d \in Dates, c \in Clock}
-InRange(tpl, t) == IF tpl.date \in {"y2md", "y2doy"} THEN t[1] \in 1965..2064 ELSE t[1] \in 1000..9999
+InRange(tpl, t) == IF tpl.date \in {"y2md", "y2doy"} \/ EDate(tpl) \in {"y2md", "y2doy"} THEN t[1] \in 1965..2064 ELSE t[1] \in 1000..9999
 
 \* end candidates: same instant, one unit later at each level, just before the next day,
 \* and the instant "23:59:59.999 later" family that makes partial ends roll over
@@ -50,7 +54,7 @@ RECURSIVE SetToSeq(_)
 SetToSeq(X) == IF X = {} THEN <<>> ELSE LET x == CHOOSE y \in X : TRUE IN <<x>> \o SetToSeq(X \ {x})
 EndRepr(x) == IF x = <<>> THEN <<0>> ELSE x
 Emit == (TLCGet("distinct") % Stride # 0) \/ PrintT(<<"CASE", ToJson([
-           tpl |-> [date |-> tpl.date, nt |-> tpl.nt,
+           tpl |-> [date |-> tpl.date, edate |-> EDate(tpl), nt |-> tpl.nt,
                     ek |-> tpl.ek, ep |-> SetToSeq(tpl.ep)],
            s |-> s,
            start |-> StartOf(tpl, s),
